@@ -200,6 +200,7 @@ type Conn struct {
 	serverClosed bool
 	serverErr    error
 	closeCount   int
+	stalling     int
 
 	rdDeadline, wrDeadline time.Time
 	rdWake, wrWake         chan struct{}
@@ -321,7 +322,13 @@ func (c *Conn) Write(p []byte) (int, error) {
 		}
 		c.writes = append(c.writes, WriteRec{Off: off, Len: len(p), N: k, Err: "stall"})
 		dl := c.wrDeadline
+		c.stalling++
 		c.mu.Unlock()
+		defer func() {
+			c.mu.Lock()
+			c.stalling--
+			c.mu.Unlock()
+		}()
 		c.net.Rec("write-fault %s stall %d/%d", c.Name, k, len(p))
 		var tch <-chan time.Time
 		if !dl.IsZero() {
@@ -514,4 +521,12 @@ func (c *Conn) Unread() int {
 	c.mu.Lock()
 	defer c.mu.Unlock()
 	return len(c.s2c) - c.s2cOff
+}
+
+// Busy reports whether a write is stalled on the connection or a write fault is armed
+// and not yet consumed.
+func (c *Conn) Busy() bool {
+	c.mu.Lock()
+	defer c.mu.Unlock()
+	return c.stalling > 0 || c.wfault != nil || c.broken
 }
